@@ -23,6 +23,11 @@ ASSUMPTIONS = ['scores of candidates are integers below sys.maxsize (N1..N4 are 
                'bytearray.find axiomatised: least match at or after start, -1 if none']
 
 
+# native stand-ins for obligations that are no longer generated (see pyvc/runner.py): by obligation-name prefix
+STANDIN_REPLAY = [('C06.selection.micro', dict(fn='replay_selection', micro=True)), ('C06.selection.', dict(fn='replay_selection', micro=False)),
+                  ('find_and_apply_best_mask.', dict(fn='replay_selection', micro=False))]
+
+
 def tasks(tier, seed):
     ts = [Task('mask_conditions', MOD, 'task_mask_conditions', (), fuc=['segno.encoder.get_data_mask_functions'])]
     for v in iso.ALL_VERSIONS:
